@@ -137,7 +137,7 @@ def sweep_plan(tier):
         if tier == "quick":
             # token-boundary stratum, one case per content for both byte kinds
             cases.append({"content": cid, "lexer": lexer, "kind": "torn_prefix", "mode": "boundaries", "cap": 160 if n < 8192 else 16})
-            if cid.split(".", 1)[1] in ("multi2", "nested", "strings", "mlhdr", "half", "unbal", "arrowparam", "arrowmix", "arrowcall", "async", "cont", "contdef", "record", "ns", "prop", "macro", "twins", "uni", "nestone", "iface"):
+            if cid.split(".", 1)[1] in ("multi2", "nested", "strings", "mlhdr", "half", "unbal", "arrowparam", "arrowmix", "arrowcall", "async", "cont", "contdef", "record", "ns", "prop", "macro", "twins", "uni", "nestone", "iface", "fnprop"):
                 cases.append({"content": cid, "lexer": lexer, "kind": "lost_head", "mode": "boundaries", "cap": 160})
                 cases.append({"content": cid, "lexer": lexer, "kind": "lost_line"})
                 cases.append({"content": cid, "lexer": lexer, "kind": "swap_lines"})
